@@ -119,7 +119,18 @@ pub fn sigs(v1: bool) -> &'static [Sig] {
     }
 }
 
-pub fn sig(v1: bool, name: &str) -> &'static Sig { sigs(v1).iter().find(|s| s.name == name).unwrap_or_else(|| panic!("harness: unknown host function {}", name)) }
+/// Pseudo call of the script language: the `memory.grow` instruction (operand = pages).
+pub const GROW: &str = "memory.grow";
+pub const GROW_SIG: Sig = Sig { name: GROW, params: &[I32], result: Some(I32), scope: Common };
+
+pub fn sig(v1: bool, name: &str) -> &'static Sig {
+    if name == GROW {
+        return &GROW_SIG;
+    }
+    sig_host(v1, name)
+}
+
+fn sig_host(v1: bool, name: &str) -> &'static Sig { sigs(v1).iter().find(|s| s.name == name).unwrap_or_else(|| panic!("harness: unknown host function {}", name)) }
 
 /// Argument of a host call.
 #[derive(Clone, Debug, PartialEq, Eq)]
@@ -202,6 +213,10 @@ pub struct Script {
     /// metering schedule (CostConfigurationV1 when true)
     pub cost_v1: bool,
     pub pages_min: u32,
+    /// how the declared maximum of the memory is chosen: None = the initial size (memory.grow of
+    /// more than 0 pages fails), Some(None) = no declared maximum, Some(Some(k)) = initial + k pages
+    /// (k may go past the chain limit of 512 pages)
+    pub mem_max: Option<Option<u32>>,
     pub calls: Vec<Call>,
     pub blobs: Vec<Blob>,
     pub param: Vec<u8>,
@@ -324,7 +339,9 @@ pub fn compile(s: &Script) -> Compiled {
     };
     // first pass: imports in order of first use (function indices must be known before bodies)
     for c in &s.calls {
-        import_of(c.f, &mut types, &mut imports);
+        if c.f != GROW {
+            import_of(c.f, &mut types, &mut imports);
+        }
     }
     let win = s.dump_len.min(layout.mem_len);
     match s.dump {
@@ -352,7 +369,7 @@ pub fn compile(s: &Script) -> Compiled {
     let slot_addr = |slot: usize| (RES_BASE as usize + 8 * (slot % MAX_SLOTS)) as i32;
     for c in &s.calls {
         let sg = sig(v1, c.f);
-        let fidx = import_of(c.f, &mut types, &mut imports);
+        let fidx = if c.f == GROW { u32::MAX } else { import_of(c.f, &mut types, &mut imports) };
         if sg.result.is_some() {
             body.push(Instr::Const32(slot_addr(c.slot)));
         }
@@ -375,7 +392,7 @@ pub fn compile(s: &Script) -> Compiled {
                 (a, I64) => body.push(Instr::Const64(s.resolve(&layout, a).unwrap() as i64)),
             }
         }
-        body.push(Instr::Call(fidx));
+        body.push(if c.f == GROW { Instr::MemGrow } else { Instr::Call(fidx) });
         match sg.result {
             Some(I32) => body.push(Instr::Mem(0x36, 0, 0)),
             Some(I64) => body.push(Instr::Mem(0x37, 0, 0)),
@@ -445,7 +462,7 @@ pub fn compile(s: &Script) -> Compiled {
         funcs,
         table: None,
         elems: vec![],
-        memory: Some((layout.pages, Some(layout.pages))),
+        memory: Some((layout.pages, match s.mem_max { None => Some(layout.pages), Some(None) => None, Some(Some(k)) => Some(layout.pages + k) })),
         data,
         globals: vec![],
         exports: vec![(s.export_name().to_string(), entry)],
@@ -484,6 +501,7 @@ pub fn to_json(s: &Script) -> J {
         "protocol": format!("P{}", s.proto),
         "cost_schedule": if s.cost_v1 { "CostConfigurationV1" } else { "CostConfigurationV0" },
         "memory_pages": l.pages,
+        "memory_max": match s.mem_max { None => "initial size".to_string(), Some(None) => "none declared (chain limit 512 pages)".to_string(), Some(Some(k)) => format!("{} pages", l.pages + k) },
         "calls": s.calls.iter().map(|c| show_call(s, &l, c)).collect::<Vec<_>>(),
         "blobs": s.blobs.iter().enumerate().map(|(i, b)| format!("b{} @{}{}: {}", i, l.blob_addr[i], if b.at_end { " (end of memory)" } else { "" }, vmon_core::hex_short(&b.bytes, 80))).collect::<Vec<_>>(),
         "parameter": vmon_core::hex_short(&s.param, 64),
